@@ -111,7 +111,7 @@ class Verifier:
         return self.prog.func(contract.relpath, contract.qualname)
 
     def lemma_contracts(self):
-        return [c for (f, c) in self.reg.lemmas.values()]
+        return [c for n, (f, c) in self.reg.lemmas.items() if n not in self.reg.axioms]
 
     def all_contracts(self):
         return [c for c in self.reg.contracts.values() if not c.abstract] + self.lemma_contracts()
